@@ -57,6 +57,11 @@ func step(t *bfe_http2.VerifC34Sched, op hv.L) (obs hv.Val) {
 }
 
 func impl(in hv.Val) hv.Val {
+	if top := hv.AsList(in); len(top) == 2 {
+		if _, isList := top[0].(hv.L); !isList && hv.AsInt(top[0]) == 7 {
+			return liveRun(hv.AsList(top[1]))
+		}
+	}
 	t := bfe_http2.VerifC34New()
 	out := hv.L{}
 	for _, opv := range hv.AsList(in) {
@@ -74,6 +79,9 @@ func impl(in hv.Val) hv.Val {
 const maxI32 = 1<<31 - 1
 
 func gen(r *hv.Rng, i int, tier string) (string, hv.Val) {
+	if i%10 == 3 {
+		return genLive(r)
+	}
 	ops := hv.L{}
 	add := func(v ...hv.Val) { ops = append(ops, hv.L(v)) }
 	// regime: 0 tiny windows/frames (splits everywhere), 1 realistic sizes, 2 int32 boundary windows
